@@ -1,8 +1,13 @@
 """C19 — tick's status tells the truth about the snapshot (shape facts)."""
-from cfg import Inconclusive, op_place, show, walk, strip_casts
+from cfg import Inconclusive, op_place, show, walk, strip_casts, decision_paths
 from common import (atomic_op, calls_to, callee, closure_creations, closure_consumer, field_chain, fn_of,
                     find_fn, get_fn, head_sources, peel, site, guards_of, field_assigns, field_borrows,
                     field_reads, is_diverging, ret_aggregates, bool_param, is_arg)
+
+
+def worker_param(fn, base):
+    """Is `base` the (non-self) parameter of this body that refers to the Worker? (by type, not by name)"""
+    return isinstance(base, tuple) and base[0] == "arg" and base[1] >= 2 and "Worker<" in fn.b["locals"][base[1]]["ty"]
 
 PROP = "C19"
 LEVEL = "other"
@@ -122,33 +127,18 @@ def rule_changed_guards_mutation(ctx):
                 ctx.violation(TICK_INNER + "|changed-source|1", site(ti, dbi, dsi),
                               "`changed` is %s, which is not implied by the conditions guarding Snapshot::update: the snapshot can be rewritten while tick reports changed == false" % show(e))
     ctx.floor("Status values returned by tick_inner", n, 2)
-    # tick: changed is the OR of both phases
+    # tick: `changed` is (at least) the OR of all phases that ran on the path, decided per return path as a
+    # boolean function of the phases' results (whatever the statement shapes: |=, ||, struct literal, early return)
     tick = get_fn(facts, "nucleo", TICK)
-    ors = [s for bi, si, s in tick.stmts(lambda s: s["k"] == "assign" and s["lhs"]["p"] and isinstance(s["lhs"]["p"][-1], dict) and s["lhs"]["p"][-1].get("name") == "changed")]
-    inner_calls = [(bi, t) for bi, t in tick.calls(lambda t: callee(t) == TICK_INNER)]
-    if len(inner_calls) >= 2:
-        good = False
-        for s in ors:
-            rv = s["rv"]
-            if rv.get("bin") == "BitOr":
-                a = tick.expr_of_operand(rv["a"])
-                b = tick.expr_of_operand(rv["b"])
-                srcs = set()
-                for e in (a, b):
-                    for x in walk(e):
-                        if x[0] == "call" and x[1] == TICK_INNER:
-                            srcs.add(x[4])
-                        if x[0] == "local":
-                            for _, _, d in tick.def_exprs(x[1]):
-                                for y in walk(d):
-                                    if y[0] == "call" and y[1] == TICK_INNER:
-                                        srcs.add(y[4])
-                if len(srcs) >= 2:
-                    good = True
-        if good:
-            ctx.ok(site(tick, inner_calls[1][0]), "tick reports changed = phase1.changed | phase2.changed")
-        else:
-            ctx.violation(TICK + "|changed-or|1", site(tick, inner_calls[1][0]), "tick does not combine the `changed` of both phases with OR: an update in one phase can be reported as unchanged")
+    tab = tick_phase_table(tick)
+    ctx.floor("return paths of tick", len(tab), 2)
+    if max(n_ for _, n_, _, _ in tab) < 2:
+        ctx.violation(TICK + "|changed-or|0", site(tick, 0), "tick has no path with a second phase")
+    bad = [t_ for t_ in tab if t_[2] in ("changed", "opaque", "no-phase")]
+    if bad:
+        ctx.violation(TICK + "|changed-or|1", site(tick, 0), "tick does not combine the `changed` of its phases with OR: %s" % bad[0][3])
+    else:
+        ctx.ok(site(tick, 0), "on all %d return paths of tick, changed ⊇ OR of the phases' changed" % len(tab))
     # who else can mutate the snapshot: &mut self.snapshot is taken only in tick_inner and restart
     for b in facts.bodies_of("nucleo"):
         fn = fn_of(b)
@@ -166,6 +156,99 @@ def rule_changed_guards_mutation(ctx):
                     continue
                 ctx.violation("%s|Snapshot.%s|write" % (fn.path, fld), site(fn, bi, si), "Snapshot.%s written outside Snapshot::update/clear" % fld)
     ctx.ok("crate nucleo", "Snapshot fields are written only by Snapshot::update / Snapshot::clear")
+
+
+def _status_field(r, name):
+    r = peel(r) if r and r[0] in ("ref", "deref") else r
+    if r is None:
+        return None
+    if r[0] == "agg" and name in r[2]:
+        return r[2][name]
+    if r[0] == "upd":
+        return r[2].get(name, ("field", r[1], name, None))
+    if r[0] == "call":
+        return ("field", r, name, None)
+    return None
+
+
+def _bool_eval(e, asg):
+    """Evaluate a boolean expression over atoms (call id, field) -> bool; None when it depends on anything else."""
+    e = strip_casts(e)
+    if e[0] == "const" and e[1] in (0, 1, True, False):
+        return bool(e[1])
+    if e[0] == "field":
+        b = e[1]
+        while b and b[0] in ("ref", "deref"):
+            b = b[1]
+        if b and b[0] == "upd" and e[2] in b[2]:
+            return _bool_eval(b[2][e[2]], asg)
+        if b and b[0] == "upd":
+            b = b[1]
+        if b and b[0] == "call":
+            return asg.get((b[4], e[2]))
+        return None
+    if e[0] == "un" and e[1] == "Not":
+        v = _bool_eval(e[2], asg)
+        return None if v is None else (not v)
+    if e[0] == "bin" and e[1] in ("BitOr", "BitAnd"):
+        a, b = _bool_eval(e[2], asg), _bool_eval(e[3], asg)
+        if e[1] == "BitOr":
+            if a is True or b is True:
+                return True
+            return None if (a is None or b is None) else False
+        if a is False or b is False:
+            return False
+        return None if (a is None or b is None) else True
+    return None
+
+
+def tick_phase_table(tick):
+    """Per return path of tick: the tick_inner calls made and the returned Status, checked as boolean functions
+    of the phases' (changed, running): yields (path_no, n_phases, problem or None, detail)."""
+    import itertools
+    out = []
+    paths = decision_paths(tick, with_calls=True)
+    for pi, (conds, res, calls) in enumerate(paths):
+        phases = [c for c in calls if c[0] == TICK_INNER]
+        if not phases:
+            out.append((pi, 0, "no-phase", "a return path of tick does not call tick_inner"))
+            continue
+        ch = _status_field(res, "changed")
+        ru = _status_field(res, "running")
+        if ch is None or ru is None:
+            out.append((pi, len(phases), "opaque", "returned Status is not built from the phases' results: %s" % show(res)[:120]))
+            continue
+        ids = [c[1] for c in phases]
+        problem = None
+        for bits in itertools.product((False, True), repeat=2 * len(ids)):
+            asg = {}
+            for k, cid in enumerate(ids):
+                asg[(cid, "changed")] = bits[2 * k]
+                asg[(cid, "running")] = bits[2 * k + 1]
+            feasible = True
+            for d, chosen, allv in conds:
+                v = _bool_eval(d, asg)
+                if v is None:
+                    continue
+                want = (chosen != 0) if chosen is not None else True
+                if v != want:
+                    feasible = False
+                    break
+            if not feasible:
+                continue
+            cv, rv = _bool_eval(ch, asg), _bool_eval(ru, asg)
+            if cv is None or rv is None:
+                problem = ("opaque", "returned Status depends on something other than the phases' results")
+                break
+            any_changed = any(asg[(cid, "changed")] for cid in ids)
+            if any_changed and not cv:
+                problem = ("changed", "with %d phase(s), some phase reported changed but tick returns changed == false" % len(ids))
+                break
+            if asg[(ids[-1], "running")] and not rv:
+                problem = ("running", "the last phase reported running (it spawned a run or timed out) but tick returns running == false")
+                break
+        out.append((pi, len(ids), problem[0] if problem else None, problem[1] if problem else "ok"))
+    return out
 
 
 def rule_running_guards_spawn(ctx):
@@ -205,27 +288,14 @@ def rule_running_guards_spawn(ctx):
         else:
             ctx.violation(TICK_INNER + "|running-source|1", site(ti, bi, si),
                           "`running` (%s) is not the condition under which the run is spawned" % show(r))
-    # tick returns the second phase's running when there is one
+    # tick returns (at least) the last phase's running on every path
     tick = get_fn(ctx.facts, "nucleo", TICK)
-    inner_calls = [(bi, t) for bi, t in tick.calls(lambda t: callee(t) == TICK_INNER)]
-    if len(inner_calls) >= 2:
-        second = inner_calls[-1]
-        asg = field_assigns(tick, "running")
-        good = False
-        for bi, si, s in asg:
-            if si == "term":
-                continue
-            e = tick.expr_of_rvalue(s["rv"])
-            cands = [e]
-            if e[0] == "bin" and e[1] == "BitOr":  # over-reporting `running` is allowed by the property
-                cands = [e[2], e[3]]
-            if any(c[0] == "field" and c[2] == "running" and peel(c[1])[0] == "call" and peel(c[1])[4][0] == second[0] for c in cands):
-                if tick.all_paths_to_return_pass(second[1]["target"], via_nodes=[bi]):
-                    good = True
-        if good:
-            ctx.ok(site(tick, second[0]), "tick returns the second phase's `running`")
-        else:
-            ctx.violation(TICK + "|running-second-phase|1", site(tick, second[0]), "tick does not return the `running` of its second phase: a run spawned there would be reported as not running")
+    tab = tick_phase_table(tick)
+    bad = [t_ for t_ in tab if t_[2] in ("running", "opaque", "no-phase")]
+    if bad:
+        ctx.violation(TICK + "|running-second-phase|1", site(tick, 0), "tick does not return the `running` of its last phase: %s" % bad[0][3])
+    else:
+        ctx.ok(site(tick, 0), "on all %d return paths of tick, running ⊇ the last phase's running" % len(tab))
 
 
 def rule_running_formula(ctx):
@@ -413,7 +483,7 @@ def rule_pattern_handover(ctx):
         dst = up.expr_of_operand(t["args"][0])
         if callee(t).endswith("clone_from"):
             src = up.expr_of_operand(t["args"][1])
-            if field_chain(dst)[1] == ["pattern"] and field_chain(src)[1] == ["pattern"] and field_chain(src)[0][0] == "arg" and field_chain(src)[0][2] == "worker":
+            if field_chain(dst)[1] == ["pattern"] and field_chain(src)[1] == ["pattern"] and worker_param(up, field_chain(src)[0]):
                 okp = True
     if okp:
         ctx.ok(site(up, 0), "snapshot.pattern := worker.pattern on update")
